@@ -28,6 +28,7 @@ type AV struct {
 	Xs  []*AV  `json:"xs,omitempty"`
 	Id  int    `json:"id"`
 	Ks  []int  `json:"ks,omitempty"`
+	Cap int    `json:"cap"` // seq: spare capacity behind the elements
 	Vs  []*AV  `json:"vs,omitempty"`
 }
 
@@ -373,8 +374,10 @@ func tcMutate(v reflect.Value) {
 		case reflect.Ptr:
 			poison(c.Elem())
 		case reflect.Slice:
-			for i := 0; i < c.Len(); i++ {
-				poison(c.Index(i))
+			// the whole backing array, spare capacity included: an append through the other side would land there
+			full := c.Slice3(0, c.Cap(), c.Cap())
+			for i := 0; i < full.Len(); i++ {
+				poison(full.Index(i))
 			}
 		case reflect.Map:
 			for _, k := range c.MapKeys() {
@@ -464,15 +467,19 @@ func cmdTc(args []string) {
 	defer out.Close()
 	sum := Summary{}
 	for _, c := range cases {
-		if c.What == "sort" {
-			tcSort(out, c.In)
-		} else {
-			r, ok := tcRegistry[c.Ty]
-			if !ok {
-				fatal("tc: unknown type", c.Ty)
+		c := c
+		out.Ev("Case", "ty", c.Ty, "what", c.What)
+		deadline(out, caseDeadline, func() {
+			if c.What == "sort" {
+				tcSort(out, c.In)
+			} else {
+				r, ok := tcRegistry[c.Ty]
+				if !ok {
+					fatal("tc: unknown type", c.Ty)
+				}
+				r.run(out, c.Ty, c.What, c.Vals)
 			}
-			r.run(out, c.Ty, c.What, c.Vals)
-		}
+		})
 		out.tr++
 		sum.Inc(c.What, 1)
 	}
